@@ -4,6 +4,7 @@ mod config_grid;
 mod grids;
 mod ledger;
 mod menu;
+mod migrate_grid;
 mod own;
 mod probe_checks;
 mod probes;
@@ -72,6 +73,7 @@ fn main() {
         "C12" => own::run(thorough),
         "C13" => treasury_grid::run(thorough),
         "C14" => config_grid::run(thorough),
+        "C18" => migrate_grid::run(thorough),
         "C04" => grids::run_c04(thorough),
         "C09" => grids::run_c09(thorough),
         _ => {
